@@ -46,6 +46,7 @@ OUTER:
 		case <-ew.notifyCh:
 			// check to see if there is a new snapshot to persist
 			ourSnapshot := s.currentSnapshot()
+			verifHook("merge.wake", s, ourSnapshot)
 			atomic.StoreUint64(&s.stats.mergeSnapshotSize, uint64(ourSnapshot.Size()))
 			atomic.StoreUint64(&s.stats.mergeEpoch, ourSnapshot.epoch)
 
@@ -135,6 +136,7 @@ func (s *Writer) executeMergeTask(merges chan *segmentMerge, task *mergeplan.Mer
 	oldMap, segmentsToMerge, docsToDrop := s.planSegmentsToMerge(task)
 
 	newSegmentID := atomic.AddUint64(&s.nextSegmentID, 1)
+	verifHook("merge.task", s, newSegmentID, task)
 	var oldNewDocNums map[uint64][]uint64
 	var seg *segmentWrapper
 	if len(segmentsToMerge) > 0 {
@@ -297,6 +299,7 @@ func (s *Writer) mergeSegmentBases(merges chan *segmentMerge, snapshot *Snapshot
 	atomic.AddUint64(&s.stats.TotMemMergeZapBeg, 1)
 
 	newSegmentID := atomic.AddUint64(&s.nextSegmentID, 1)
+	verifHook("memmerge.task", s, newSegmentID, snapshot, sbsIndexes)
 
 	newDocNums, err := s.merge(sbs, sbsDrops, newSegmentID)
 
